@@ -37,6 +37,7 @@ let handle = function
   | ["specc2"; op; a1; b1; a2; b2; c1; d1; c2; d2] ->
      let z = z_of_hex in
      string_of_res (specc2 (nat_of_int (int_of_string op)) (z a1) (z b1) (z a2) (z b2) (z c1) (z d1) (z c2) (z d2))
+  | ["specc_expt"; a1; b1; a2; b2; e] -> string_of_res (specc_expt (z_of_hex a1) (z_of_hex b1) (z_of_hex a2) (z_of_hex b2) (z_of_hex e))
   | ["spec_q"; n; d] -> string_of_res (spec_q (z_of_hex n) (z_of_hex d))
   | ["spec_radix_c"; r; a; b; c; d] -> string_of_res (spec_radix_c (z_of_hex r) (z_of_hex a) (z_of_hex b) (z_of_hex c) (z_of_hex d))
   | ["spec_radix_q"; r; n; d] -> string_of_res (spec_radix_q (z_of_hex r) (z_of_hex n) (z_of_hex d))
